@@ -243,6 +243,23 @@ struct transition_table_impl
             auto& source = sm.template get_state<current_state_type>();
             auto& target = sm.template get_state<next_state_type>();
 
+            // If the source is an exit pseudostate, take the transition
+            // only if the exit pseudostate is active in its owner.
+            if constexpr (has_exit_pseudostate_be_tag<typename Row::Source>::value)
+            {
+                constexpr auto exit_state_id =
+                    current_state_type::template get_state_id<typename Row::Source>();
+                bool is_exit_state_active = false;
+                for (const auto active_state_id : source.get_active_state_ids())
+                {
+                    is_exit_state_active |= (active_state_id == exit_state_id);
+                }
+                if (!is_exit_state_active)
+                {
+                    return process_result::HANDLED_FALSE;
+                }
+            }
+
             if (!call_guard_or_true<Row, HasGuard>(sm, event, source, target))
             {
                 // guard rejected the event, we stay in the current one
